@@ -18,7 +18,7 @@ c09 = importlib.util.module_from_spec(_spec)
 _spec.loader.exec_module(c09)
 
 OCAML = c09.OCAML
-HARNESS = c09.HARNESS
+HARNESS = c09.HARNESS + [("lang", ["lmmm_run"], True)]
 
 GLOBALS = {"gx": "3.0", "gv": "7.0"}
 POOL = ["y", "t", "acc", "w", "gx", "gv", "q1", "m1"]
@@ -111,6 +111,43 @@ def gen_case(rng):
     return {"template": tname, "kind": kind, "original": original, "renamed": renamed, "collides": collides, "own": own,
             "rn": rn, "B": B, "B2": B2, "G": G, "L": L, "arg": A}
 
+
+
+# ---------------------------------------------------------------------------------------------------------------------
+# hygiene with respect to IMPORTED / MODULE-LEVEL names (response to seeded change C10b): a binder of quoted code whose name is also a
+# function visible through `use m::f`, `use m::*` or as a sibling item of the macro's module; the binder is used directly, from a quote
+# nested in an escape, or from a macro call inside the quote.  The spliced argument is a literal, so finding F7 does not apply.
+# Each case = one program template instantiated with the clashing binder name and with a fresh one: same output required.
+def gen_import_case(rng):
+    clash = rng.choice(["gain", "amp0", "mix", "scale"])
+    imp = rng.choice(["alias", "wild", "sibling"])
+    binder = rng.choice(["let", "lambda", "tuple"])
+    use = rng.choice(["direct", "nested-escape", "macro-call", "nested-twice"])
+    k = rng.choice(["0.5", "2.0", "0.25", "3.0"])
+    arg = rng.choice(["3.0", "1.5", "4.0"])
+    def body(B):
+        if use == "direct":
+            inner = "$e * %s" % B
+        elif use == "nested-escape":
+            inner = "$(twice(`{ $e * %s }))" % B
+        elif use == "macro-call":
+            inner = "twice!(`{ $e * %s })" % B
+        else:
+            inner = "$(twice(`{ $(twice(`{ $e + %s })) * %s }))" % (B, B)
+        if binder == "let":
+            return "`{\n        let %s = %s\n        %s\n    }" % (B, k, inner), "amp!(`%s)" % arg
+        if binder == "tuple":
+            return "`{\n        let (%s, other_) = (%s, 1.0)\n        %s + other_\n    }" % (B, k, inner), "amp!(`%s)" % arg
+        return "`{|%s| %s }" % (B, inner), "amp!(`%s)(%s)" % (arg, k)
+    def prog(B):
+        q, call = body(B)
+        if imp == "sibling":
+            return ("mod fx {\n    pub fn %s(x){ x * 100.0 }\n    #stage(macro)\n    pub fn twice(c){ `{ $c + $c } }\n    pub fn amp(e){\n    %s\n    }\n}\n"
+                    "fn dsp(){\n    fx::%s + fx::%s(1.0)\n}\n" % (clash, q, call, clash))
+        head = "mod util {\n    pub fn %s(x){ x * 100.0 }\n}\n%s\n" % (clash, "use util::%s" % clash if imp == "alias" else "use util::*")
+        return (head + "#stage(macro)\nfn twice(c){\n    `{ $c + $c }\n}\nfn amp(e){\n    %s\n}\n#stage(main)\nfn dsp(){\n    %s + %s(1.0)\n}\n"
+                % (q, call, clash))
+    return {"clashing": prog(clash), "renamed": prog("bq_%d" % rng.below(100)), "desc": "%s/%s/%s binder named %s" % (imp, binder, use, clash)}
 
 def rename_sexpr(s, a, b):
     return s.replace('"%s"' % a, '"%s"' % b)
@@ -274,6 +311,30 @@ def run(ck):
     if len(cases) > 3:
         ck.sample({"original": cases[3]["original"], "renamed": cases[3]["renamed"], "vm": [ans[6].get("vm"), ans[7].get("vm")], "collides": cases[3]["collides"]})
 
+    # ---- imported / module-level names (implementation only, both backends) ----
+    import lmmm as _lm
+    rc_, out_, bindir_ = cargo_build("lang", ["lmmm_run"])
+    icases = [gen_import_case(ck.rng.fork(("import-hygiene", i))) for i in range(120 if ck.tier == "quick" else 1500)]
+    if rc_ == 0:
+        ires = _lm.run_impl(os.path.join(bindir_, "lmmm_run"),
+                            [{"src": c[k], "n": 2, "state": False} for c in icases for k in ("clashing", "renamed")])
+        ist = {"import_cases": len(icases), "import_same": 0, "import_rejected_both": 0}
+        for ci, c in enumerate(icases):
+            ra, rb = ires[2 * ci], ires[2 * ci + 1]
+            def summ(r):
+                if 'crash' in r: return ('crash',)
+                return tuple((be, tuple(tuple(x.get('out', ['P'])) for x in r[be]['samples']) if 'samples' in r.get(be, {}) else 'reject') for be in ("vm", "wasm"))
+            sa, sb = summ(ra), summ(rb)
+            if sa == sb:
+                if all(v == 'reject' for _, v in sa if sa != ('crash',)):
+                    ist["import_rejected_both"] += 1
+                else:
+                    ist["import_same"] += 1
+                continue
+            prop_fail.append(("renaming a binder of quoted code whose name is also an imported / module-level function changes the result (%s)" % c["desc"],
+                              {"original": c["clashing"], "renamed": c["renamed"], "kind": "rename-macro-binder-imported-name",
+                               "clashing_result": str(sa)[:300], "renamed_result": str(sb)[:300]}))
+        ck.coverage.update(ist)
     for what, rp in prop_fail[:5]:
         ck.violation(what, rp)
     if disagreements and not prop_fail:
